@@ -629,7 +629,7 @@ func c14Mandatory(w *World, r *Report, pa *pipelineAnchors, fa *factoryAnchors) 
 			if f.Kind == FCmp && f.Op.String() == "!=" {
 				for _, pair := range [][2]ssa.Value{{f.X, f.Y}, {f.Y, f.X}} {
 					if c, isC := pair[1].(*ssa.Const); isC && proxyMode != nil {
-						if pc, ok := proxyMode.(*types.Const); ok && c.Value != nil && c.Value.ExactString() == pc.Val().ExactString() && pathEndsWith(pair[0], "mode") {
+						if pc, ok := proxyMode.(*types.Const); ok && c.Value != nil && c.Value.ExactString() == pc.Val().ExactString() && isFieldOfType(pair[0], pc.Type()) {
 							return true
 						}
 					}
